@@ -35,6 +35,8 @@ BLOCKS = {
     'negated-alias':   ("x = 0.5*x + G\nd = -x\nw = 3 + d**2 - 0.5*d\nv = 2*d*d - d/4", {'x': {'x': 0.5}}, ['x'], ['G'], {}),
     'division-first':  ("x = 1/Y + 0*y\ny = 0.5*y + G", {'x': {}, 'y': {'y': 0.5}}, ['x', 'y'], ['G', 'Y'], {}),
     'division-middle': ("a = 0.5*a + 1 + 0*x\nx = 2/Y + 0*y\ny = 0.25*y + G + 0*a", {'a': {}, 'x': {}, 'y': {}}, ['a', 'x', 'y'], ['G', 'Y'], {}),
+    # two independent contractions of very different size in one block, the large one listed first: the small one has to be as converged as alone
+    'two-scales':      ("W = 0.5*W + 40*G\nu = -0.5*u + 1", {'W': {'W': 0.5}, 'u': {'u': -0.5}}, ['W', 'u'], ['G'], {}),
     'three-coupled':   ("x = 0.5*y + G\ny = 0.25*x + 0.3*z + 1\nz = 0.2*x - 0.4*y + G",
                         {'x': {'y': 0.5}, 'y': {'x': 0.25, 'z': 0.3}, 'z': {'x': 0.2, 'y': -0.4}}, ['x', 'y', 'z'], ['G'], {}),
 }
@@ -92,6 +94,7 @@ def real_case(case):
     simultaneous = [v for v, _ in probe.Parser.Endogenous]
     zf = {f: (lambda *a, f=f: symx.lift(funcs[f](*[SymReal(x) for x in a]))) for f in funcs}
     nA = 0
+    rows = {}
     for v, eqn in probe.Parser.Endogenous:
         env0 = {nm: z3.Real('q_' + nm) for nm in set(simultaneous) | set(exo) | {l for l, _ in probe.Parser.Lagged} | {'k'}}
         base = to_z3(eqn, env0, zf)
@@ -100,10 +103,11 @@ def real_case(case):
             d = z3.simplify(z3.substitute(base, (env0[w], env0[w] + 1)) - base)
             from vf.eqsmt import val_fraction
             row += abs(val_fraction(d))
+            rows.setdefault(v, {})[w] = abs(val_fraction(d))
         nA = max(nA, row)
     n = max(len(simultaneous), 1)
     TOL = symx.rat(tol)
-    factor = (1 + z3.RealVal(str(nA))) * n * TOL / (1 - TOL)
+    factor = n * TOL / (1 - TOL)
     out['gain'] = float(nA)
 
     def path():
@@ -145,16 +149,21 @@ def real_case(case):
         for k in range(1, maxtime + 1):
             env = {v: L(ts[v][k]) for v in ts}
             fenv = {f: (lambda *a, f=f: L(funcs[f](*[SymReal(x) for x in a]))) for f in funcs}
-            scale = z3.RealVal(1)
+            # per equation: the exit test bounds the last move of every variable w by tol/(1-tol) * max(1, |w|); the residual of the equation of v is its own
+            # (possibly damped) move plus the moves of the variables it reads, weighted by its own coefficients - the magnitudes of the values THIS equation
+            # involves, not the largest value anywhere in the block (a small variable listed after a large one must be as converged as alone)
+            mag = {}
             for v in simultaneous:
                 a = env[v]
-                scale = z3.If(z3.If(a >= 0, a, -a) > scale, z3.If(a >= 0, a, -a), scale)
+                ab = z3.If(a >= 0, a, -a)
+                mag[v] = z3.If(ab > 1, ab, z3.RealVal(1))
             for v, eqn in orig.Endogenous:
                 if v == 't':
                     props.append(env['t'] == k)
                     continue
                 r = env[v] - to_z3(eqn, env, fenv)
                 if v in simultaneous:
+                    scale = mag[v] + sum(z3.RealVal(str(c)) * mag[w] for w, c in rows.get(v, {}).items() if c != 0)
                     props.append(z3.If(r >= 0, r, -r) <= factor * scale)
                 else:
                     props.append(r == 0)          # derived-only / alias variables: exactly
@@ -265,21 +274,21 @@ orig = EquationParser(); orig.ParseString(full)
 probe = EquationSolver(full, run_equation_reduction=reduce)
 sim = [v for v, _ in probe.Parser.Endogenous]
 names = set(sim) | set(exo) | {l for l, _ in probe.Parser.Lagged} | {'k'}
-gain = 0.0
+rows = {}
 for v, eqn in probe.Parser.Endogenous:
     z = {n: 1.0 for n in names}; z.update(funcs)      # finite differences around 1 (the equations are affine in the simultaneous variables; divisors are exogenous)
-    base = eval(eqn, {}, z); row = 0.0
+    base = eval(eqn, {}, z)
     for w in sim:
         z1 = dict(z); z1[w] = 2.0
-        row += abs(eval(eqn, {}, z1) - base)
-    gain = max(gain, row)
-bound = (1 + gain) * max(len(sim), 1) * tol / (1 - tol)
+        rows.setdefault(v, {})[w] = abs(eval(eqn, {}, z1) - base)
+bound = max(len(sim), 1) * tol / (1 - tol)
 bad = False
 for k in range(1, maxtime + 1):
     env = {v: ts[v][k] for v in ts}; env.update(funcs)
-    scale = max([1.0] + [abs(env[v]) for v in sim])
+    mag = {v: max(1.0, abs(env[v])) for v in sim}
     for v, eqn in orig.Endogenous:
         if v == 't': continue
+        scale = (mag[v] + sum(c * mag[w] for w, c in rows.get(v, {}).items())) if v in sim else 1.0      # the magnitudes of the values this equation involves
         try:
             r = abs(env[v] - eval(eqn, {}, env))
         except ZeroDivisionError:
@@ -426,7 +435,7 @@ def run(tier, seed):
     chk = Check('C02', tier, 'model_checking', seed)
     chk.encode(EquationSolver._SolveStep, EquationSolver.SolveStep, EquationSolver.SetInitialConditions,
                EquationSolver.ExtractVariableList, sfc_models.equation_parser.EquationParser.EquationReduction)
-    BUDGET[0] = 60 if tier == 'quick' else 400
+    BUDGET[0] = 110 if tier == 'quick' else 400
     FP_TIMEOUT[0] = 120000 if tier == 'quick' else 300000
     from vf import selfcheck
     selfcheck.run(chk)      # differential validation of the E2 value classes against plain floats (trusted base)
@@ -435,7 +444,7 @@ def run(tier, seed):
     chk.bounds = {'real mode': '%d cases: blocks %r x tolerance {1e-2,1e-6} x iteration cap x reduction on/off; start values and exogenous in [-100,100], '
                   'exact reals; 1 period (2 for selected)' % (len(rc), sorted(BLOCKS)),
                   'fp mode': '%d cases: blocks %r, binary64 RNE, all finite doubles as start values / constants, cap 1 (2 thorough), every path' % (len(fc), sorted(FP_BLOCKS)),
-                  'residual bound': '(1+||A||inf) * n * tol/(1-tol) * max(1, max|x|) for simultaneously determined equations (derived from the exit test); '
+                  'residual bound': 'per equation v: n * tol/(1-tol) * (max(1,|v|) + sum_w |A_vw| max(1,|w|)) over the simultaneous variables w it reads (derived from the exit test; the magnitudes of the values the equation involves, not the largest value in the block); '
                   'decorative, alias, lagged, exogenous, time: exact'}
     chk.assumptions = ['E2 value classes validated on every run: 7 concrete solver runs through SymReal (agree with floats to 1e-9) and SymFP (bit-identical with floats)', 'real mode uses exact real arithmetic (rounding is the FP clause`s business)', 'inputs (start values, exogenous, constants) are finite',
                        'max() inside the solver module is shadowed by an ite-building equivalent in FP mode only (module-level name injection, no source change; '
